@@ -1,6 +1,6 @@
 (* C09  Cleanup runs exactly once per ending, always settles (machine level).  Statements only. *)
 From Coq Require Import List NArith ZArith String Bool.
-From DT Require Import GenStatus GenEvent FsmTypes GenFsm Fsm Machine FsmFacts MachineFacts C09Proofs.
+From DT Require Import GenStatus GenEvent GenMsgType FsmTypes GenFsm Fsm Machine View Msg Transport FsmFacts MachineFacts C09Proofs C16Proofs.
 Import ListNotations.
 
 (* the cleanup entry function releases the transport channel once, un-protects the other party
@@ -68,3 +68,11 @@ Theorem C09_endings_enter_cleanup :
     entering Cancel s = true /\ entering Error s = true /\ entering Complete s = true.
 Proof. intros s _. destruct s; repeat split; vm_compute; reflexivity. Qed.
 Print Assumptions C09_endings_enter_cleanup.
+
+(* transport level: closing a channel always returns, whatever the state of the underlying
+   request (never started, open, already cancelled, cancelled by the remote): the model of
+   dtChannel.close (as repaired by fix #4) has no wait state *)
+Theorem C09_close_always_returns :
+  forall s k orc, exists b, In (ORet b) (snd (tstep s (XClose k) orc)).
+Proof. exact close_always_returns. Qed.
+Print Assumptions C09_close_always_returns.
